@@ -25,7 +25,7 @@ CHECKS = {
          "The fixed header is learnt from the checked-in samples/README.md.",
          "DESIGN.md C18"),
  "C13": ("bounded-exhaustive enumeration of inputs (choice-tree explorer, in-process driver linked against the working tree's pkg/slice) vs. an independent recursive cons-list model",
-         "Every []int over {0,1,2} and []string over {\"\",\"a\",\"b\"} of length 0..5 (quick) / 0..7 (thorough) x every in-range index and count x a fixed family of total function arguments; all pairs of slices (Append, Zip) and slices of slices (Concat, Collect); each of the 29 functions of pkg/slice is compared with a recursive list model (Sort/SortBy: ascending permutation; Map/Iter call order; Forall/Forany/TryFind scan order and early exit).",
+         "Every []int over {0,1,2} and []string over {\"\",\"a\",\"b\"} of length 0..5 (quick) / 0..7 (thorough) x every in-range index and count x a fixed family of total function arguments; all pairs of slices (Append, Zip) and slices of slices (Concat, Collect); plus the long-slice family that crosses every size at which an implementation may switch algorithm: length 6..20 (thorough 66) x ascending / descending / zigzag pairwise-distinct values x no repetition or one repetition at every pair of positions, Append/Zip at every pair of lengths up to 34 (80), Concat/Collect over 4..7 (10) chunks of length 0, 1 or 3 in every pattern; each of the 29 functions of pkg/slice is compared with a recursive list model (Sort/SortBy: ascending permutation; Map/Iter call order; Forall/Forany/TryFind scan order and early exit).",
          "Out-of-domain calls are not made; stability of Sort is not required; nil-ness of results is not compared (C10 covers equality of differently produced slices).",
          "DESIGN.md C13"),
  "C14": ("explicit-state breadth-first search over dictionary operation sequences vs. a model map, plus bounded-exhaustive argument enumeration for strings/buf/frt (in-process driver linked against the working tree's pkg/*)",
